@@ -6,8 +6,13 @@ import warnings
 import numpy as np
 from astropy.modeling.core import Model
 
+import astropy.units as u
+from astropy.modeling import models
+
 import common as C
 import skygen as S
+from gwcs import coordinate_frames as cf
+from gwcs import selector
 from gwcs import wcs as gw
 
 PROP = "C17"
@@ -73,11 +78,51 @@ class Flaky(Model):
         return Flaky(self._inv)
 
 
+class FlakyLabel(Model):
+    """user-supplied label transform of a LabelMapperRange: counts its evaluations and raises at the k-th one, like Flaky"""
+    n_inputs = 2
+    n_outputs = 1
+
+    def __init__(self, label, **kw):
+        super().__init__(**kw)
+        self._label = label
+
+    def evaluate(self, x, y):
+        _ST["n"] += 1
+        if _ST["trace"] is not None:
+            _ST["trace"].append("eval")
+        if _ST["crash"] is not None and _ST["n"] == _ST["crash"]:
+            if _ST.get("interrupt"):
+                raise UserInterrupt("interrupted at evaluation %d" % _ST["n"])
+            raise UserTransformError("label transform failed at evaluation %d" % _ST["n"])
+        return np.full(np.shape(x), float(self._label))
+
+
 def _build(case):
     p = case["params"]
     det, foc, sky = S.frames()
     s1 = S.step1(p)
     inv = s1.inverse if case["analytic"] else None
+    if case.get("wcs") == "cube":
+        # sky + spectral cube: the user transform on the two spatial axes, a linear wavelength axis beside it
+        det3 = cf.CoordinateFrame(3, ("SPATIAL",) * 3, (0, 1, 2), unit=(u.pix,) * 3, name="detector", axes_names=("x", "y", "z"))
+        foc3 = cf.CoordinateFrame(3, ("SPATIAL",) * 3, (0, 1, 2), unit=(u.pix,) * 3, name="focal", axes_names=("fx", "fy", "fz"))
+        world = cf.CompositeFrame([sky, cf.SpectralFrame(unit=u.um, axes_order=(2,), name="spec")], name="world")
+        w = gw.WCS([(det3, Flaky(s1, inv, nan_beyond=case.get("nan_beyond")) & models.Identity(1)),
+                    (foc3, S.step2(p) & (models.Scale(0.01) | models.Shift(1.0))), (world, None)])
+        w.bounding_box = tuple(tuple(b) for b in p["bbox"]) + ((-0.5, 9.5),)
+        return w
+    if case.get("wcs") == "slits":
+        # two slit-like regions side by side along x, told apart by a LabelMapperRange whose label transforms are the user's
+        (x0, x1), _ = p["bbox"]
+        xm = 0.5 * (x0 + x1)
+        lm = selector.LabelMapperRange(("x", "y"), {(x0 - 1.0, xm): FlakyLabel(1), (xm, x1 + 1.0): FlakyLabel(2)},
+                                       inputs_mapping=models.Mapping((0,), n_inputs=2))
+        rs = selector.RegionsSelector(("x", "y"), ("lon", "lat"), label_mapper=lm,
+                                      selector={1: Flaky(s1) | S.step2(p), 2: Flaky(S.step1(p)) | S.step2(p)})
+        w = gw.WCS([(det, rs), (sky, None)])
+        w.bounding_box = tuple(tuple(b) for b in p["bbox"])
+        return w
     w = gw.WCS([(det, Flaky(s1, inv, nan_beyond=case.get("nan_beyond"))), (foc, S.step2(p)), (sky, None)])
     if case.get("bbox", True):
         w.bounding_box = tuple(tuple(b) for b in p["bbox"])
@@ -159,6 +204,11 @@ def _invoke(w, case, world):
     e, m = case["entry"], case.get("mode", {})
     x = np.array([10.0, 300.5, 620.0])
     y = np.array([20.0, 250.0, 480.25])
+    if case.get("wcs") == "cube":
+        if e == "forward":
+            return w(x, y, np.array([0.0, 4.0, 9.0]))
+        if e == "to_fits":
+            return w.to_fits(max_pix_error=50, max_inv_pix_error=50, npoints=8, degree=m.get("degree"), sampling=0.5)
     if e == "forward":
         return w(x, y)
     if e == "invert":
@@ -299,6 +349,14 @@ def gen(rng, tier):
         p["scale"] = 10 ** rng.uniform(-5, -4)
         yield {"entry": entry, "mode": mode, "analytic": False, "params": p, "nan_beyond": 0.7 * p["bbox"][0][1],
                "ks": [rng.randint(0, 1000) for _i in range(2)] if q else "all"}
+    # a sky + spectral cube written to FITS with every way of asking for a SIP degree (None / 2 / overridden ones), and two slit-like
+    # regions told apart by a LabelMapperRange with user label transforms
+    for wk, entry, mode in [("cube", "to_fits", {"degree": d}) for d in (3, [1, 3], None, 2)] + [("cube", "forward", {}), ("cube", "footprint", {}),
+                                                                                                  ("slits", "forward", {}), ("slits", "footprint", {})]:
+        p = S.gen_params(rng, distortion=True)
+        p["scale"] = 10 ** rng.uniform(-5, -4)
+        yield {"wcs": wk, "entry": entry, "mode": mode, "analytic": False, "params": p, "err0": rng.choice([["warn", "warn"], ["ignore", "warn"]]),
+               "ks": [rng.randint(0, 1000) for _i in range(2)] if q else "all", "interrupt": rng.random() < 0.4}
     reps = 1 if q else 4
     for _ in range(reps):
         for entry, mode in combos:
